@@ -74,3 +74,15 @@ SHAPE(arg_optopt, Prod<Arg<0, sstr>, Optional<Opt<1, unsigned, false, false>>>)
 //@harness h_parse_arg_optopt param n=0..2 tier=quick loop=200
 //@harness h_parse_arg_optopt param n=3..3 tier=thorough loop=200 wall=3000
 //@harness h_parse_arg_optopt param n=4..4 tier=thorough loop=200 wall=6000 paths=400000
+
+// optional / many around a sum whose LEFT alternative can fail hard (conversion) while the RIGHT one is merely missing,
+// followed by a parser that could take the offending token.  other_error_fwd.hpp: errors other than "missing", "for
+// example failed conversion ... make even optional parsers fail" - so sum(hard, missing) is hard and the whole parse
+// fails instead of skipping the sum and handing the token to the following argument.
+SHAPE(optsum_name, Prod<Optional<Sum<2, Arg<0, int>, USwitch<1, false>>>, Arg<3, sstr>>)
+//@harness h_parse_optsum_name param n=0..2 tier=quick loop=200
+//@harness h_parse_optsum_name param n=3..4 tier=thorough loop=200 wall=6000 paths=400000
+SHAPE(manysum_name, Prod<Many<Sum<2, Arg<0, int>, USwitch<1, false>>>, Arg<3, sstr>>)
+//@harness h_parse_manysum_name param n=0..2 tier=quick loop=200
+//@harness h_parse_manysum_name param n=3..3 tier=quick loop=200 cost=5
+//@harness h_parse_manysum_name param n=4..4 tier=thorough loop=200 wall=6000 paths=400000
